@@ -56,9 +56,10 @@ package idl
 //@   requires [wf] wf(p)
 //@   modifies p.position
 //@   ensures [wf C05 C06 C09] wf(p) && p.position >= old(p.position)
-//@   ensures [spaces] forall i int :: old(p.position) <= i && i < p.position ==> p.input[i] == 32
+//@   ensures [spaces] forall i int :: old(p.position) <= i && i < p.position ==> p.input[i] == 32 || p.input[i] == 9
+//@   ensures [maximal C05] p.position >= len(p.input) || (p.input[p.position] != 32 && p.input[p.position] != 9)
 //@   loop 1 invariant [wf] wf(p) && p.position >= old(p.position)
-//@   loop 1 invariant [spaces] forall i int :: old(p.position) <= i && i < p.position ==> p.input[i] == 32
+//@   loop 1 invariant [spaces] forall i int :: old(p.position) <= i && i < p.position ==> p.input[i] == 32 || p.input[i] == 9
 //@   loop 1 decreases len(p.input) - p.position
 
 //@ func (*parser).readKeyword {C05 C06 | safety: C09}
